@@ -61,3 +61,15 @@ PREC = [
     G("e05", "pmqa", ["Sx"], [("Sx", "Ex"), ("Ex", "Ex p Ex"), ("Ex", "Ex m Ex"), ("Ex", "Ex q Ex"), ("Ex", "a")], prec=[("left", ["p", "m"]), ("right", ["q"])]),
     G("e06", "ieoa", ["Sx"], [("Sx", "Tx"), ("Tx", "i Tx"), ("Tx", "i Tx e Tx"), ("Tx", "o")], prec=[("nonassoc", ["i"]), ("nonassoc", ["e"])]),   # dangling else by precedence
 ]
+
+
+# ---- lalr(k): reduce/reduce choices that need 2..4 tokens of lookahead (C07) ----
+LALRK = [
+    G("q01", "abce", ["Sx"], [("Sx", "Ax a b"), ("Sx", "Bx a c"), ("Ax", "e"), ("Bx", "e")], lalr=2),
+    G("q02", "abcde", ["Sx"], [("Sx", "Ax a b c"), ("Sx", "Bx a b d"), ("Ax", "e"), ("Bx", "e")], lalr=3),
+    G("q03", "abcde", ["Sx"], [("Sx", "Ax a b c"), ("Sx", "Bx a b d"), ("Ax", "e"), ("Bx", "e")], lalr=8),
+    G("q04", "abcdef", ["Sx"], [("Sx", "Ax a a a c"), ("Sx", "Bx a a a d"), ("Sx", "Cx a b"), ("Ax", "e"), ("Bx", "e"), ("Cx", "e")], lalr=4),
+    G("q05", "abcz", ["Sx"], [("Sx", "Lx"), ("Lx", "Lx Ix"), ("Lx", "Ix"), ("Ix", "z Xx z a"), ("Ix", "z Yx z b"), ("Xx", "c"), ("Yx", "c")], lalr=2),     # the choice repeats along a list
+    G("q06", "abcde", ["Sx"], [("Sx", "Ax a b"), ("Sx", "Bx a c"), ("Sx", "d Ax a c"), ("Sx", "d Bx a b"), ("Ax", "e"), ("Bx", "e")], lalr=2) | {"expect_conflict": True},   # the same pair in two contexts with swapped continuations: not LALR(2)
+    G("q08", "abce", [("Sx", True)], [("Sx", "Ax a b"), ("Sx", "Bx a c"), ("Ax", "e"), ("Bx", "e")], lalr=2),                                            # no-eoi input
+]
